@@ -42,7 +42,6 @@ theorem rtp_joined (nm : Option Str) (o : Bool) (k : Nat) (m : Schema) : RTP env
         cases u <;> cases hte : t.isEmpty <;> simp_all
       simp only [hk, if_true, toKeys, List.map_cons, List.map_nil, setFlat, List.find?_cons,
         tokKey_name, hok.1, pr, hnot, Bool.false_eq_true, if_false]
-      rw [← hok.2.1]
     · have hyes : (u && t.isEmpty) = true := by
         cases u <;> cases hte : t.isEmpty <;> simp_all
       simp only [hk, if_false, Bool.false_eq_true, toKeys, List.map_nil, setFlat, List.find?_nil, pr,
